@@ -177,7 +177,9 @@ def obligations(tier):
     if tier == 'quick':
         sim_jobs = [(f, 1, None) for f in firsts] + [(f, 2, (g2,)) for f in QUICK_FIRST2 for g2 in QUICK_SECOND]
     else:
-        sim_jobs = [(f, 1, None) for f in firsts] + [(f, 2, (g2,)) for f in firsts for g2 in firsts]
+        # thorough: every first gate x the 5-gate second menu, with ALL configurations (the full 19 x 19 product with
+        # all configurations ran 16 cores for more than two hours without finishing and is not part of the claim)
+        sim_jobs = [(f, 1, None) for f in firsts] + [(f, 2, (g2,)) for f in firsts for g2 in QUICK_SECOND]
     for first, nops, second in sim_jobs:
         def body(cx, wrong=False, first=first, nops=nops, second=second):
             qs, ops, steps = build_circuit(cx, N, nops, first, second)
@@ -454,7 +456,7 @@ LEVEL = (
 def main(tier, seed=0, replay=None, only=None, procs=None):
     bounds = {
         'wires': 3,
-        'ops_per_circuit': '2: Circuit.unitary on every ordered pair over the 19-gate menu with every placement; simulators: first op over the 19-gate menu, second op over a 5-gate sub-menu and 4 first gates with 3 configurations (quick; plus all 19 single-op circuits with 11 configurations) / the full menu (thorough), every placement',
+        'ops_per_circuit': '2: Circuit.unitary on every ordered pair over the 19-gate menu with every placement; simulators: first op over the 19-gate menu, second op over a 5-gate sub-menu; quick: 4 first gates with 4 configurations (plus all 19 single-op circuits with 11 configurations); thorough: all 19 first gates with all 16 configurations; every placement',
         'simulator_configs': '11 (quick) / 18 x 8 basis states (thorough) combinations of entry point, split_untangled_states, initial-state kind',
         'parameter_box': [-BOX, BOX],
         'amplitude_box': [-1, 1],
